@@ -796,7 +796,7 @@ Proof.
   intro H.
   specialize (H wit_created (FDead [0%nat]) 0%nat wit_a_sched (reachable_created _ _) eq_refl
                 (or_introl eq_refl) (or_introl eq_refl) eq_refl).
-  pose proof wit_a as [Q [E _]]. specialize (H Q). vm_compute in H. discriminate.
+  pose proof wit_a as [Q [E _]]. specialize (H Q). vm_compute in H. discriminate H.
 Qed.
 
 Lemma noncritical_full_statement_refuted : ~ noncritical_full_statement.
@@ -806,5 +806,5 @@ Proof.
                 (reachable_run _ _ (reachable_created _ _)) Q0).
   assert (V : forall i, In i (fault_victims (FInternal 1%nat)) -> crit_of (wrun wit_c_pre wit_created) i = false).
   { intros i [<-|[]]. exact C0. }
-  specialize (H V eq_refl). vm_compute in H. discriminate.
+  specialize (H V eq_refl). vm_compute in H. discriminate H.
 Qed.
